@@ -719,7 +719,8 @@ def _b_cos_generic(interp, st, args, kw):
         r = COSD_F(to_real(x))
         st.assume(z3.And(r >= -1, r <= 1))
         interp.assumed.add("A3 cos(radians(x)): opaque function of x with range [-1,1], cos(90 deg)=0")
-        st.assume(COSD_F(z3.RealVal(90)) == 0)
+        for deg, val in ((0, "1"), (60, "1/2"), (90, "0"), (120, "-1/2"), (180, "-1")):
+            st.assume(COSD_F(z3.RealVal(deg)) == z3.RealVal(val))
         return r
     raise Unsupported("cos of non-radians value")
 
